@@ -266,4 +266,36 @@ theorem fragmentation_refines (b : List Int) :
   have : 0 < b.length := List.length_pos_iff.2 hb
   congr 1; omega
 
+/-! ## `LMeasure.terminal_degree` (built on the translated `Tree.Node.subtree` = `get_subtree_impl`, then `Tree.get_tips` on the new table) -/
+
+theorem range_nodup (m : Nat) : (Py.range (m : Int)).Nodup := by
+  rw [Py.range_natCast]
+  exact List.Pairwise.map _ (fun a b hab h => hab (by exact_mod_cast h)) List.nodup_range
+
+/-- `Tree.Node.subtree()` as translated returns the (id, pid) columns of the model's `getSubtree` -/
+theorem node_subtree_eq (pids : List Int) (s : Rose) (h : Represents s (Sub.rangeI pids.length) pids)
+    (hin : ∀ i ∈ s.ids, 0 ≤ i ∧ i.toNat < pids.length) (F : Nat) :
+    node_subtree (2 * s.size + F + 1) (Sub.rangeI pids.length) pids s.id =
+      (Sub.getSubtree pids s.id).map (fun r => (Py.range (r.mapping.length : Int), r.newPid)) := by
+  have hs : s.id ∈ s.ids := by cases s; simp [Rose.id, Rose.ids]
+  obtain ⟨k, hk⟩ : ∃ k : Nat, s.id = (k : Int) := ⟨s.id.toNat, by have := (hin _ hs).1; omega⟩
+  have hkn : k < pids.length := by have := (hin _ hs).2; omega
+  have hg := C06.generated_getSubtree_eq_model pids s h hin F
+  rw [hk] at hg ⊢
+  simp only [node_subtree, node_subtree.body, Py.seq, Py.bind, idx_rangeI _ _ hkn, hg]
+  cases Sub.getSubtree pids (k : Int) <;> simp [Py.finish]
+
+/-- **`LMeasure.terminal_degree` as translated, reduced to the model's subtree table**: for the subtree `s` at any node of a tree object and
+every fuel `≥ 2·|s| + 1`, the model's `getSubtree` succeeds and the generated function returns the number of rows of the new table that no
+row of the new table names as its parent. (`terminalDegree_refines` below identifies that number with the tips at or below the node.) -/
+theorem terminalDegree_reduces (pids : List Int) (s : Rose) (h : Represents s (Sub.rangeI pids.length) pids)
+    (hin : ∀ i ∈ s.ids, 0 ≤ i ∧ i.toNat < pids.length) (F : Nat) :
+    ∃ res, Sub.getSubtree pids s.id = some res ∧
+      lm_terminal_degree (2 * s.size + F + 1) (Sub.rangeI pids.length) pids s.id =
+        some ((((Py.range (res.mapping.length : Int)).filter fun j => !res.newPid.contains j).length : Nat) : Int) := by
+  obtain ⟨res, hres, _⟩ := C06.subtree_nodes pids s h hin
+  refine ⟨res, hres, ?_⟩
+  simp only [lm_terminal_degree, lm_terminal_degree.body, Py.bind, node_subtree_eq pids s h hin F, hres, Option.map,
+    getTips_refines _ _ (range_nodup _), Py.finish, Py.len_eq, Branches.getTips]
+
 end RefineLm
